@@ -1138,8 +1138,8 @@ class ValueMap(Value):
 
     def asObject(self):
         result = ValueObject()
-        for key, value in self.value.items():
-            result.addItem(key.asString().value, value)
+        for key in self.getSortedKeys():
+            result.addItem(key.asString().value, self.value[key])
         return result
 
     def asMap(self):
@@ -1298,7 +1298,7 @@ class ValueObject(Value):
 
     def asList(self):
         result = ValueList()
-        for value in self.value.values:
+        for value in self.value.values():
             result.addItem(value)
         return result
 
